@@ -542,8 +542,7 @@ def update_flag_sub(x, y, z):
 def set_float_cs_eip(info):
     e = []
     # XXX TODO check float updt
-    cast_int = tab_mode[info.opmode]
-    e.append(ExprAff(float_eip, ExprInt(cast_int(info.offset))))
+    e.append(ExprAff(float_eip, ExprInt32(info.offset)))
     e.append(ExprAff(float_cs, cs))
     return e
 
